@@ -10,17 +10,17 @@ SPEC = dict(
                 "goroutine start of swarm, emitter, eventbus, upgrader, yamux, multistream is a scheduling decision; tasks race "
                 "dials in both directions, early inbound streams, local/remote/by-peer closes, closes from inside notifiee "
                 "callbacks and Swarm.Close; exactly-once / ordering / truthfulness oracles over stamped histories"),
-    level_note=("trusted: testing/synctest, the overlay rewrite, simnet's TCP model; limited (relayed) connections are covered by "
-                "C12's harness, not here; notifiee callbacks of the swarm under observation only"),
+    level_note=("trusted: testing/synctest, the overlay rewrite, simnet's TCP model; limited connections are raw connections marked limited by the simulated transport "
+                "(the way the circuit transport marks relayed ones), not real relay circuits; notifiee callbacks of the swarm under observation only"),
     technique="deterministic simulation: seeded lock-level scheduler over instrumented swarm stack on simnet, history oracles",
     design_ref="DESIGN.md section 5 (C06)",
     quick_s=50, thorough_s=600,
     rule=("one run = one tape: 1-2 peers, 1-3 notifiees with drawn behaviour per callback (return, sleep, close the connection, "
           "open a stream), subscriber pace and buffer, 2-5 actor tasks with 1-4 steps each (dial out, dial in + early stream, "
-          "close one connection locally, close remotely, ClosePeer, Swarm.Close, sleep) and a seeded schedule with optional "
+          "close one connection locally, close remotely, ClosePeer, Swarm.Close, sleep, dial in over the peer's LIMITED path, close the limited connections) and a seeded schedule with optional "
           "stalls; non-trivial = at least one connection was observed; distinct = distinct (schedule hash, per-connection "
           "callback counts, per-peer event sequences)"),
-    probes=["early-inbound-stream", "swarm-closed-by-actor", "notconnected-event"],
+    probes=["early-inbound-stream", "swarm-closed-by-actor", "notconnected-event", "limited-connection", "downgrade-connected-to-limited", "upgrade-limited-to-connected"],
     real=["swarm (conns, emitter, dial, listen, streams) — instrumented", "eventbus — instrumented", "upgrader, tcp dial path, insecure security, "
           "yamux, multistream — instrumented", "pstoremem"],
     stubs=["wire: simnet TCP model"],
